@@ -172,7 +172,11 @@ def unpack_impl(pkt, raw, offset, **k):
                 module_compiled_filename = module_name + ".pyc"
 
             if os.path.exists(module_compiled_filename):
-                os.remove(module_compiled_filename)
+                try:
+                    os.remove(module_compiled_filename)
+                except FileNotFoundError:
+                    # another process removed it in the meantime
+                    pass
 
             # creates folder to host our generated code
             os.makedirs(folder, exist_ok=True)
